@@ -427,7 +427,9 @@ class TxPipeline(Elaboratable):
         #
         # Bit-stuffing and NRZI.
         #
-        bitstuff = ResetInserter(da_reset_bitstuff)(TxBitstuffer())
+        # Keep the bit stuffer in reset while we're not sending data bits; so ones shifted out
+        # before the data starts (e.g. during SYNC) aren't counted towards the first stuffed bit.
+        bitstuff = ResetInserter({"usb": ~state_data})(TxBitstuffer())
         m.submodules.bitstuff = bitstuff
 
         m.submodules.nrzi = nrzi = TxNRZIEncoder()
